@@ -47,6 +47,11 @@ def _rand_func(rng, sdim=None, nurbs=None, out=None, pmax=3, vector_dim=None):
         f = geometry.NurbsFunc(kvs, C.copy(), W.copy())
         pre = np.concatenate(((C * W.reshape(N + (1,) * len(out))).reshape(N + (out or (1,))), W[..., None]), axis=-1)
         return f, desc, kvs, pre, True
+    if rng.random() < 0.15:
+        # integer coefficient arrays (control points typed in by hand): results are real-valued all the same
+        Ci = rng.integers(-6, 7, size=N + out)
+        desc['integer_coeffs'] = True
+        return bspline.BSplineFunc(kvs, Ci.copy()), desc, kvs, Ci.astype(float), False
     return bspline.BSplineFunc(kvs, C.copy()), desc, kvs, C, False
 
 def _fingerprint(f):
@@ -214,9 +219,9 @@ def _ops(rec, case):
         elif op == 'copy':
             ok, F = guarded(rec, c, sig, f.copy); ref = val
             if ok:
-                F.coeffs[...] += 1.0      # modifying the copy must not affect the original
+                F.coeffs[...] += 1        # modifying the copy must not affect the original
                 if _fingerprint(f) != fp: rec.violation(dict(sig, oracle='copy is independent of the original'), c, {})
-                F.coeffs[...] -= 1.0
+                F.coeffs[...] -= 1
         elif op == 'support':
             F = f.copy() if hasattr(f, 'copy') else f
             new = tuple((kv.kv[0] + 0.25 * (kv.kv[-1] - kv.kv[0]), kv.kv[-1] - 0.25 * (kv.kv[-1] - kv.kv[0])) for kv in kvs)
